@@ -57,7 +57,7 @@ __CPROVER_ensures(OLD(ctx->survey_id) == 0 ==> (g_sv.idm_remove_calls == OLD(g_s
 static void surv0_ctx_send(void *arg, nni_aio *aio)
 __CPROVER_requires(__CPROVER_is_fresh(arg, sizeof(struct surv0_ctx)) && __CPROVER_is_fresh(SS_S, sizeof(struct surv0_sock)) && SV_IDMAP_RANGE(SS_S) && VP_NO_LOCK_HELD)
 __CPROVER_requires(__CPROVER_is_fresh(aio, sizeof(nni_aio)) && MSG_PRE(SS_M) && SS_M->m_refcnt.v == 1 && CH_GHOST_PRE(&SS_M->m_body))
-__CPROVER_requires(LMQ_WF_SCALAR(&SS_C->recv_lmq))
+__CPROVER_requires(LMQ_WF_SCALAR(&SS_C->recv_lmq) && SS_C->survey_time.v >= -1 && g_now < ((nni_time) 1 << 62))
 /* queue A = receives pending on this context, queue B = the socket's pipes (model limit: at most two) */
 __CPROVER_requires(g_qa_addr == &SS_C->recv_queue && g_qb_addr == &SS_S->pipes && g_qb.n <= 2)
 __CPROVER_requires((g_qa.n == 0 || __CPROVER_is_fresh(g_qa.head, sizeof(nni_aio))) && (g_qb.n == 0 || SV_PIPE_PRE(g_qb.head)) && (g_qb.n != 2 || SV_PIPE_PRE(g_qb.tail)) && g_qa.n <= SV_MAXWAIT && (g_qa.n < 2 || g_qa.tail == NULL || __CPROVER_is_fresh(g_qa.tail, sizeof(nni_aio))) && VP_AIOQS_OK && VP_AIO_NOT_QUEUED(aio))
@@ -79,7 +79,9 @@ __CPROVER_ensures(OLD(SS_C->survey_id) != 0 ==> (g_sv.idm_remove_calls == OLD(g_
 __CPROVER_ensures(g_idm_set_rv != 0 ==> (g_fin_last == aio && g_fin_last_rv == g_idm_set_rv && aio->a_msg == OLD(SS_M) && !__CPROVER_was_freed(OLD(SS_M)) && SS_C->survey_id == 0 && !g_sv.idm_present && g_pipe_send_calls == OLD(g_pipe_send_calls)))
 /* success: new id (high bit set) owned by this context, deadline = now + survey time, header = [id], completes with the body length */
 __CPROVER_ensures(g_idm_set_rv == 0 ==> (SS_C->survey_id == g_idm_fresh && (SS_C->survey_id & 0x80000000u) != 0 && g_sv.idm_present && g_sv.idm_val == arg && g_idm_key == (uint64_t) SS_C->survey_id && g_sv.idm_alloc_calls == OLD(g_sv.idm_alloc_calls) + 1))
-__CPROVER_ensures(g_idm_set_rv == 0 ==> SS_C->expire == g_now + SS_C->survey_time.v)
+/* deadline = now + survey time; an infinite survey time (NNG_DURATION_INFINITE, accepted by the option) never expires */
+__CPROVER_ensures((g_idm_set_rv == 0 && SS_C->survey_time.v >= 0) ==> SS_C->expire == g_now + (nni_time) SS_C->survey_time.v)
+__CPROVER_ensures((g_idm_set_rv == 0 && SS_C->survey_time.v < 0) ==> SS_C->expire == NNI_TIME_NEVER)
 __CPROVER_ensures(g_idm_set_rv == 0 ==> (g_fin_last == aio && g_fin_last_rv == 0 && g_fin_last_count == OLD(SS_M->m_body.ch_len) && aio->a_msg == NULL))
 /* no pipe took it (none connected, or all busy with full queues): released */
 __CPROVER_ensures((g_idm_set_rv == 0 && g_qb.n == 0) ==> (__CPROVER_was_freed(OLD(SS_M)) && g_pipe_send_calls == OLD(g_pipe_send_calls)))
@@ -99,10 +101,12 @@ __CPROVER_ensures(g_idm_set_rv == 0 ==> g_pipe_send_calls == OLD(g_pipe_send_cal
 #define SR_S (((surv0_ctx *) arg)->sock)
 #define SR_Q (&((surv0_ctx *) arg)->recv_lmq)
 #define SR_NOLIVE (SR_C->survey_id == 0 || g_now >= SR_C->expire)
-#define SR_CLAMP (aio->a_timeout < 1 || (g_now + aio->a_timeout) > SR_C->expire)
+/* the receive must not outlive the survey: an infinite/default timeout, or one that ends after the deadline, is clamped.
+ * A ZERO timeout (non-blocking receive, C15) is NOT touched: it has to fail at once in nni_aio_start. */
+#define SR_CLAMP (aio->a_timeout < 0 || (aio->a_timeout > 0 && (g_now + aio->a_timeout) > SR_C->expire))
 static void surv0_ctx_recv(void *arg, nni_aio *aio)
 __CPROVER_requires(__CPROVER_is_fresh(arg, sizeof(struct surv0_ctx)) && __CPROVER_is_fresh(SR_S, sizeof(struct surv0_sock)) && VP_NO_LOCK_HELD)
-__CPROVER_requires(__CPROVER_is_fresh(aio, sizeof(nni_aio)))
+__CPROVER_requires(__CPROVER_is_fresh(aio, sizeof(nni_aio)) && !aio->a_use_expire && aio->a_timeout >= -2)
 __CPROVER_requires(LMQ_INNER_PRE(SR_Q))
 /* buffered responses come straight from a transport: unshared (state invariant, see surv0_pipe_recv_cb) */
 __CPROVER_requires(SR_Q->lmq_len > 0 ==> (__CPROVER_is_fresh(LMQ_VIEW(SR_Q, 0), sizeof(struct nng_msg)) && LMQ_VIEW(SR_Q, 0)->m_refcnt.v == 1))
@@ -115,7 +119,7 @@ __CPROVER_ensures(SR_NOLIVE ==> (g_fin_calls == OLD(g_fin_calls) + 1 && g_fin_la
 __CPROVER_ensures(!SR_NOLIVE ==> !(g_fin_calls > OLD(g_fin_calls) && g_fin_last_rv == NNG_ESTATE))
 /* live survey: the receive deadline is clamped to the survey deadline whenever the caller's is infinite/zero/later */
 __CPROVER_ensures((!SR_NOLIVE && SR_CLAMP) ==> (g_sv.set_expire_calls == OLD(g_sv.set_expire_calls) + 1 && g_sv.set_expire_aio == aio && g_sv.set_expire_when == SR_C->expire && aio->a_use_expire && aio->a_expire == SR_C->expire))
-__CPROVER_ensures((!SR_NOLIVE && !SR_CLAMP) ==> g_sv.set_expire_calls == OLD(g_sv.set_expire_calls))
+__CPROVER_ensures((!SR_NOLIVE && !SR_CLAMP) ==> (g_sv.set_expire_calls == OLD(g_sv.set_expire_calls) && !aio->a_use_expire))
 /* a response is buffered: handed over in the call (oldest first), never reaches nni_aio_start (C15) */
 __CPROVER_ensures((!SR_NOLIVE && OLD(SR_Q->lmq_len) > 0) ==> (g_start_calls == OLD(g_start_calls) && g_fin_calls == OLD(g_fin_calls) + 1 && g_fin_last == aio && g_fin_last_rv == 0 && g_fin_last_msg == OLD(LMQ_VIEW(SR_Q, 0)) && aio->a_msg == OLD(LMQ_VIEW(SR_Q, 0)) && SR_Q->lmq_len == OLD(SR_Q->lmq_len) - 1 && g_qa.n == OLD(g_qa.n)))
 /* nothing buffered: wait (start exactly once); refused => not queued */
